@@ -49,10 +49,34 @@ pub fn portfolio(name: &str) -> Vec<Rewrite> {
 }
 use std::{panic::catch_unwind, path::Path};
 
-fn guarded(f: impl FnOnce() -> String + std::panic::UnwindSafe) -> String {
-    match catch_unwind(f) {
+/// Runs one case of the implementation: a panic is the outcome `(panic)`, a call that has not returned after
+/// HANG_SECS is the outcome `(hang)` (its thread is left behind; the process ends with the suite; after three of them the rest of the suite is not run) - so that a
+/// change that makes anthem loop is reported with the input as a disagreement, not as a harness time-out.
+const HANG_SECS: u64 = 10;
+static HANGS: std::sync::atomic::AtomicUsize = std::sync::atomic::AtomicUsize::new(0);
+
+fn guarded(f: impl FnOnce() -> String + std::panic::UnwindSafe + Send + 'static) -> String {
+    if HANGS.load(std::sync::atomic::Ordering::Relaxed) >= 3 {
+        // three cases are still running: the rest of the suite is not run (the check has failed already)
+        return "(not-run-after-three-hangs)".to_string();
+    }
+    let (tx, rx) = std::sync::mpsc::channel();
+    let spawned = std::thread::Builder::new().stack_size(512 << 20).spawn(move || {
+        let r = match catch_unwind(f) {
+            Ok(s) => s,
+            Err(_) => "(panic)".to_string(),
+        };
+        let _ = tx.send(r);
+    });
+    if spawned.is_err() {
+        return "(panic)".to_string();
+    }
+    match rx.recv_timeout(std::time::Duration::from_secs(HANG_SECS)) {
         Ok(s) => s,
-        Err(_) => "(panic)".to_string(),
+        Err(_) => {
+            HANGS.fetch_add(1, std::sync::atomic::Ordering::Relaxed);
+            "(hang)".to_string()
+        }
     }
 }
 
@@ -495,12 +519,37 @@ fn strong(seed: u64, n: usize, corpus: Option<&Path>, text: bool) -> Vec<Case> {
         let (origin, mut left) = (&pair[0].0, pair[0].1.clone());
         if rng.chance(1, 4) {
             // a fact over numbered constants that share a stem: the order of symbols is byte-wise (b10 < b2, r007 < r1)
-            let pool = ["b1", "b2", "b9", "b10", "b11", "b100", "b01", "b", "r1", "r007", "r07", "r10"];
+            // ... and by code point: capitals and digits before `_` before lower-case letters (aB < a_ < aa, fooBar < foo_ < foob)
+            let pool = ["b1", "b2", "b9", "b10", "b11", "b100", "b01", "b", "r1", "r007", "r07", "r10", "aB", "aa", "a_", "aZ", "a0", "fooBar", "foo_", "foob", "xY", "xa"];
             let k = 3 + rng.below(3);
             let terms = (0..k).map(|_| asp::Term::PrecomputedTerm(asp::PrecomputedTerm::Symbol(rng.pick(&pool).to_string()))).collect();
             left.rules.push(asp::Rule { head: asp::Head::Basic(asp::Atom { predicate_symbol: "numbered".into(), terms }), body: asp::Body { formulas: vec![] } });
         }
-        let right = if rng.chance(1, 5) { left.clone() } else { pair[1].1.clone() };
+        let mut right = if rng.chance(1, 5) { left.clone() } else { pair[1].1.clone() };
+        {
+            // one pair in eight: a family around rename_conflicting_symbols - a propositional predicate s, a constant
+            // spelled like its h-/t-copy, and predicates / constants that occupy the names the renaming tries first
+            // (s_p at arity 0 or 1, s_p1, the constant ts_p). Choices from a generator of its own (seeded by the origin).
+            let mut h: u64 = 0x9e3779b97f4a7c15;
+            for b in origin.bytes() { h = (h ^ b as u64).wrapping_mul(0x100000001b3); }
+            let mut mr = Rng::new(h);
+            if mr.chance(1, 8) {
+                let stem = *mr.pick(&["p", "q", "go"]);
+                let copy = *mr.pick(&["t", "h"]);
+                let mut texts = vec![format!("r({copy}{stem}) :- {stem}.")];
+                if mr.chance(1, 2) { texts.push(format!("r(h{stem}) :- not {stem}.")); }
+                match mr.below(4) { 0 => texts.push(format!("{stem}_p.")), 1 => texts.push(format!("{stem}_p(1).")), 2 => texts.push(format!(":- {stem}, not {stem}_p.")), _ => () }
+                if mr.chance(1, 3) { texts.push(format!("{stem}_p1 :- {stem}.")); }
+                if mr.chance(1, 3) { texts.push(format!("r({copy}{stem}_p).")); }
+                if mr.chance(1, 4) { texts.push(format!("r({stem}_p) :- {stem}_p.")); }
+                for (k, t) in texts.iter().enumerate() {
+                    if let Ok(p) = t.parse::<asp::Program>() {
+                        left.rules.extend(p.rules.clone());
+                        if k == 0 || mr.chance(2, 3) { right.rules.extend(p.rules); }
+                    }
+                }
+            }
+        }
         let dec = if rng.chance(1, 2) { Decomposition::Independent } else { Decomposition::Sequential };
         let dir = *rng.pick(&[fol::Direction::Universal, fol::Direction::Forward, fol::Direction::Backward]);
         let rep = if rng.chance(1, 2) { FormulaRepresentation::Mu } else { FormulaRepresentation::TauStar };
@@ -855,6 +904,86 @@ fn gen_ext_task(rng: &mut Rng, origin: String) -> ExtTask {
             other => other,
         };
         return ExtTask { origin, spec, program, ug, po: fol::Specification { formulas: vec![] } };
+    }
+    // In a task that meets every applicability condition, now and then ONE entry that a single acceptance check of
+    // the proof outline (or of the specification) must refuse: each refusal of verifying/outline/mod.rs and the
+    // output-predicate-in-assumption check is reached in an otherwise accepted task. The choices come from a
+    // generator of their own (seeded by the origin), so the stream behind every other choice is unchanged.
+    let mut spec = spec;
+    if !sloppy {
+        let mut h: u64 = 0xcbf29ce484222325;
+        for b in origin.bytes() { h = (h ^ b as u64).wrapping_mul(0x100000001b3); }
+        let mut mr = Rng::new(h);
+        if mr.chance(1, 6) {
+            const MALFORMED: &[&str] = &[
+                "definition: forall X X (dm(X) <-> in1(X)).",
+                "definition: forall X (dm(X, 1) <-> in1(X)).",
+                "definition: forall X$i (dm(X$i + 1) <-> in1(X$i)).",
+                "definition: forall X (dm(a) <-> in1(X)).",
+                "definition: forall X (dm(X) -> in1(X)).",
+                "definition: forall X (not dm(X) <-> in1(X)).",
+                "definition: forall X (X = 1 <-> in1(X)).",
+                "definition: dm <-> in1(1).",
+                "definition: exists X (dm(X) <-> in1(X)).",
+                "definition: forall X Y (dm(X) <-> in1(X)).",
+                "definition: forall X (dm(X) <-> in1(X) and in1(Y)).",
+                "definition: forall X (dm(X) <-> nowhere(X)).",
+                "definition: forall X (out1(X) <-> in1(X)).",
+                "inductive-lemma: forall N$i (0 <= N$i <= 5 -> out1(N$i)).",
+                "inductive-lemma: forall N (N >= 0 -> out1(N)).",
+                "inductive-lemma: forall N$i (N$i + 1 >= 0 -> out1(N$i)).",
+                "inductive-lemma: forall N$i (N$i > 0 -> out1(N$i)).",
+                "inductive-lemma: forall N$i M$i (N$i >= M$i -> out1(N$i) or out1(M$i)).",
+                "inductive-lemma: forall N$i (N$i >= a -> out1(N$i)).",
+                "inductive-lemma: forall N$i (0 <= N$i -> out1(N$i)).",
+                "inductive-lemma: forall N$i (in1(N$i) -> out1(N$i)).",
+                "inductive-lemma: exists N$i (N$i >= 0 -> out1(N$i)).",
+                "inductive-lemma: forall N$i (N$i >= 0 and out1(N$i)).",
+                "inductive-lemma: out1(0).",
+                "inductive-lemma: forall N$i M$i (N$i >= 0 -> out1(N$i)).",
+                "inductive-lemma: forall N$i (N$i >= 0 -> in1(N$i) or out1(M$i)).",
+                "inductive-lemma: forall N$i (N$i >= 0 -> out1(5)).",
+                "assumption: forall X (in1(X) -> out1(X)).",
+                "spec: forall X (in1(X) -> out1(X)).",
+                // a definition whose predicate an earlier entry already uses (lemma or inductive lemma, any direction)
+                "inductive-lemma: forall N$i (N$i >= 0 -> (dm(N$i) -> dm(N$i))). definition: forall X (dm(X) <-> in1(X)).",
+                "inductive-lemma(forward): forall N$i (N$i >= 0 -> (dm(N$i) -> dm(N$i))). definition(backward): forall X (dm(X) <-> in1(X)).",
+                "inductive-lemma(backward): forall N$i (N$i >= 1 -> not dm(N$i, N$i)). definition: forall X Y (dm(X, Y) <-> in1(X) and in1(Y)).",
+                "lemma: forall X (dm(X) -> dm(X)). definition: forall X (dm(X) <-> in1(X)).",
+                "lemma(forward): forall X (dm(X) -> dm(X)). definition(forward): forall X (dm(X) <-> in1(X)).",
+                "definition: forall X (dm(X) <-> in1(X)). inductive-lemma: forall N$i (N$i >= 0 -> (dm(N$i) -> in1(N$i))). definition: forall X (dn(X) <-> dm(X)).",
+            ];
+            let text = *mr.pick(MALFORMED);
+            if let Ok(sp) = text.parse::<fol::Specification>() {
+                let at = mr.below(po.len() + 1);
+                for (k, f) in sp.formulas.into_iter().enumerate() { po.insert(at + k, f); }
+            }
+        }
+        if mr.chance(1, 8) {
+            // user-given formula names spelled like the generated ones (formula_<i>_<name>), shared between entries
+            const NAMES: &[&str] = &["formula_n", "formula_0_unnamed_formula", "formula_1_formula_n", "formula_0", "formula_", "unnamed_formula", "formula_2_l0"];
+            for f in po.iter_mut() { if mr.chance(2, 3) { f.name = mr.pick(NAMES).to_string(); } }
+            if let either::Either::Right(sp) = &mut spec {
+                for f in sp.formulas.iter_mut() { if mr.chance(1, 2) { f.name = mr.pick(NAMES).to_string(); } }
+            }
+        }
+        if let either::Either::Right(sp) = &mut spec {
+            if mr.chance(1, 8) {
+                const BAD_ASSUMPTIONS: &[&str] = &[
+                    "assumption: forall X (out1(X) -> in1(X)).",
+                    "assumption: out2.",
+                    "assumption(forward): exists X out1(X).",
+                    "assumption: forall X (in1(X) -> aux(X)).",
+                    "assumption: forall X (in1(X) -> nowhere(X)).",
+                    "lemma: forall X (in1(X) -> in1(X)).",
+                    "definition: forall X (dm(X) <-> in1(X)).",
+                ];
+                if let Ok(extra) = mr.pick(BAD_ASSUMPTIONS).parse::<fol::Specification>() {
+                    let at = mr.below(sp.formulas.len() + 1);
+                    for f in extra.formulas { sp.formulas.insert(at, f); }
+                }
+            }
+        }
     }
     ExtTask { origin, spec, program, ug, po: fol::Specification { formulas: po } }
 }
